@@ -224,6 +224,8 @@ def cconc_items(props, tier):
                       ('reins|reins', [[('insert', ('pre', 0))], [('insert', ('pre', 0))]], {})]
                 if fl == 'G': P_.append(('ins|clear', [[('insert', ('new', 0))], [('clear',)]], {}))
                 if n == 1: P_.append(('insmem|get', [[('insert_with_memory', ('new', 0))], [('get', ('pre', 0))]], dict(ttl=True, mem=True)))
+                # two stores under a memory budget: the byte total they act on must be the one inside the critical section
+                if n == 1 and pol in ('FIFO', 'LRU', 'LFU'): P_.append(('insmem|insmem', [[('insert_with_memory', ('new', 0))], [('insert_with_memory', ('new', 1))]], dict(mem=True, limit=False)))
                 # a decision taken before the critical section (is the key present? is the cache full?) must not be acted on after
                 # another thread has removed the key and refilled the slot
                 if n == 2 and (tier == 'thorough' or pol in ('FIFO', 'LRU')):
@@ -242,7 +244,7 @@ def items_for(prop, tier):
     if p == 'C04': return step_items(['C04'], tier, need=lambda fl, pol, op, L, T, M, fw: L or op == 'get')
     if p == 'C05':
         from .vc_est import CASES
-        return step_items(['C05'], tier, ops=('insert_with_memory',)) + [dict(kind='est', case=c, n=n, props=['C05']) for c in CASES for n in ((0, 2) if c in ('Vec', 'slice') else (2,))] + wrap_items(['C05'], tier, pred=lambda r: r['group'] in ('mem', 'res', 'cif') )
+        return step_items(['C05'], tier, ops=('insert_with_memory',)) + [dict(kind='est', case=c, n=n, props=['C05']) for c in CASES for n in ((0, 2) if c in ('Vec', 'slice') else (2,))] + wrap_items(['C05'], tier, pred=lambda r: r['group'] in ('mem', 'res', 'cif') ) + [x for x in cconc_items(['C05'], tier) if x.get('mem')]
     if p == 'C06': return step_items(['C06'], tier, ops=('get', 'insert'), need=lambda fl, pol, op, L, T, M, fw: T or op == 'insert')
     if p == 'C07': return step_items(['C07'], tier, policies=['FIFO', 'LRU']) + [x for x in cconc_items(['C07'], tier) if x['policy'] == 'LRU' and any(op[0] == 'get' for pr in x['progs'] for op in pr)]
     if p == 'C08': return step_items(['C08'], tier, policies=['LFU', 'ARC', 'TLRU']) + saturation_items(['C08'])
